@@ -3,8 +3,9 @@
 import Driver.Common
 import GivaroModel.Model.RecInt
 import GivaroModel.Spec.RecIntSpec
--- @driver-mode recint Driver.recintLine
-namespace Driver
+-- @driver-mode recint Driver.RecInt.recintLine
+namespace Driver.RecInt
+open Driver
 open Givaro.Model.RecInt
 
 private def bi (b : Bool) : Int := if b then 1 else 0
@@ -102,4 +103,4 @@ def recintLine (line : String) : String :=
       | _, _, _ => "BAD args | " ++ line
     | _ => "BAD short | " ++ line
 
-end Driver
+end Driver.RecInt
